@@ -159,6 +159,15 @@ func (c *ChannelWriter) HandleReplicateAPIEvent(ctx context.Context, apiEvent *a
 	return f(ctx, apiEvent)
 }
 
+// syncHeaderTimestamp: a message without row timestamps (drop collection, drop partition, import) is decoded with the
+// time of its request header; the reader re-stamps the message but leaves the header at the source time, so the header
+// follows the message here, as the replicate-tick conversion in HandleReplicateMessage does for ticks
+func syncHeaderTimestamp(msg msgstream.TsMsg, base *commonpb.MsgBase) {
+	if base != nil && msg.BeginTs() != 0 {
+		base.Timestamp = msg.BeginTs()
+	}
+}
+
 func (c *ChannelWriter) HandleReplicateMessage(ctx context.Context, channelName string, msgPack *msgstream.MsgPack) ([]byte, []byte, error) {
 	if len(msgPack.Msgs) == 0 {
 		log.Warn("receive empty message pack", zap.String("channel", channelName))
@@ -246,6 +255,7 @@ func (c *ChannelWriter) HandleReplicateMessage(ctx context.Context, channelName 
 				dbName, colName = c.mapDBAndCollectionName(dbName, colName)
 				dropPartitionMsg.DbName = dbName
 				dropPartitionMsg.CollectionName = colName
+				syncHeaderTimestamp(dropPartitionMsg, dropPartitionMsg.GetBase())
 			}
 			if msg.Type() == commonpb.MsgType_DropCollection {
 				dropCollectionMsg := msg.(*msgstream.DropCollectionMsg)
@@ -258,6 +268,7 @@ func (c *ChannelWriter) HandleReplicateMessage(ctx context.Context, channelName 
 				dbName, colName = c.mapDBAndCollectionName(dbName, colName)
 				dropCollectionMsg.DbName = dbName
 				dropCollectionMsg.CollectionName = colName
+				syncHeaderTimestamp(dropCollectionMsg, dropCollectionMsg.GetBase())
 			}
 			if msg.Type() == commonpb.MsgType_Import {
 				importMsg := msg.(*msgstream.ImportMsg)
@@ -270,6 +281,7 @@ func (c *ChannelWriter) HandleReplicateMessage(ctx context.Context, channelName 
 				dbName, colName = c.mapDBAndCollectionName(dbName, colName)
 				importMsg.DbName = dbName
 				importMsg.CollectionName = colName
+				syncHeaderTimestamp(importMsg, importMsg.GetBase())
 			}
 			if msg.Type() == commonpb.MsgType_Replicate {
 				replicateMsg := msg.(*msgstream.ReplicateMsg)
